@@ -54,6 +54,7 @@ def mat_from(out, tag, r, c):
 
 def check_unit(ctx, drv, pending, d, process, sensor, pts, exe, cfgdesc):
     Ls, Lc, Lk = eh.names_of(d)
+    core.set_tolerance(d.transcend)
     um = {s.name: e for s, e in d.state_model.items()}
     n = len(Ls)
     lines = ["layout"]
@@ -78,6 +79,11 @@ def check_unit(ctx, drv, pending, d, process, sensor, pts, exe, cfgdesc):
     case0 = dict(cfgdesc)
     if not layout_check(ctx, d, outs[0], case0):
         return
+    # the configuration the header carries is the configuration that was asked for, exactly
+    want_cfg = {"config.max_dt_sec": float(cfgdesc["max_dt_sec"]), "config.innovation_filtering": float(cfgdesc["innovation_filtering"] or 0.0)}
+    for k, v in want_cfg.items():
+        if k in outs[0] and rh.bitsf(outs[0][k]) != v:
+            ctx.fail("cpp-config-constant:" + k.split(".")[1], f"generated header carries {k.split('.')[1]} = {rh.bitsf(outs[0][k])!r}, configured {v!r}", case0)
     for pt, P, out in zip(pts, Ps, outs[1:1 + len(pts)]):
         case = dict(cfgdesc, point=eh.point_json(pt))
         rect = bool(Lc) and len(Lc) != n
@@ -198,7 +204,7 @@ def units(ctx):
         for (nc, nk) in combos:
             nsen = ctx.rng.choice([0, 1, 2, 3]) if rep else [0, 1, 2, 3][combos.index((nc, nk))]
             d = gen.gen_definition(ctx.rng, n_state=ctx.rng.choice([2, 3, 4]), n_control=nc and ctx.rng.choice([1, 2]), n_calib=nk and ctx.rng.choice([1, 2]),
-                                   n_sensors=nsen, depth=2, transcend=(rep % 4 == 3))
+                                   n_sensors=nsen, depth=2, transcend=(rep % 4 == 3) or (rep == 1 and (nc, nk) == (2, 1)))
             out.append(d)
     return out
 
@@ -214,13 +220,16 @@ def run(ctx):
         cal = pts[0]["cal"]
         pts = [dict(p, cal=cal) for p in pts]
         cse = ctx.rng.random() < 0.6
+        max_dt = ctx.rng.choice([0.1, 0.05, 0.0123456789, 1.0 / 3.0, 2.5e-6])
+        filt = ctx.rng.choice([5.0, None, 1.0 / 3.0, 2.125])
         for kind in ("ekf", "model"):
             dd = gen.Definition(d.dt, d.state, d.control, d.calibration, d.state_model, d.sensors if kind == "ekf" else {}, d.transcend)
             dd._kind = kind
-            cfgdesc = {"def": dd.describe(), "kind": kind, "cse": cse, "noise": {k: str(v) for k, v in process.items()}}
+            cfgdesc = {"def": dd.describe(), "kind": kind, "cse": cse, "noise": {k: str(v) for k, v in process.items()},
+                       "max_dt_sec": max_dt, "innovation_filtering": filt}
             try:
                 g = cppgen.generate(dd, process, sensor, cal, ctx.scratch, f"u{i}{kind[0]}", cse=cse, kind=kind, rng=ctx.rng,
-                                    container=ctx.rng.choice(["set", "list"]))
+                                    container=ctx.rng.choice(["set", "list"]), max_dt=max_dt, filtering=filt)
             except Exception as e:
                 ctx.fail(f"cpp-generate-raises:{kind}:{fk.exc_kind(e)}", f"C++ generation refuses a valid definition: {e!r}"[:300], cfgdesc)
                 continue
